@@ -197,8 +197,10 @@ Definition wf_name (st : style) (take : Z) (n : list Z) : bool :=
                && (ncheck_go n true take =? 0) && (Z.of_nat (length n) <=? IDENT_MAX)
   end.
 
+(* value lengths stay inside the int the C code counts the post data with *)
+Definition VALUE_MAX : Z := 2147483647.
 Definition wf_value (v : list Z) : bool :=
-  forallb byteb v && (plain_ok v || quotable v) && (Z.of_nat (length v) <? VALID_MOD).
+  forallb byteb v && (plain_ok v || quotable v) && (Z.of_nat (length v) <? VALUE_MAX).
 
 Fixpoint wf_item (st : style) (a : allow) (depth : nat) (i : item) : bool :=
   match i with
